@@ -34,6 +34,9 @@ fn run_case(ctx: &Ctx, index: u64, rep: &mut Report) {
     let len = 3 + rng.usize(14);
     let (ops, hg) = hist::generate(&mut rng, len, false);
     let mut a = Session::new();
+    // option flags are host-side fields: they survive RUN by design (B gets the same flags), but what the
+    // warning / trace machinery remembers about earlier runs must not
+    a.it.enable_warnings = rng.chance(1, 2);
     let mut reply_idx = 0usize;
     let mut history_json = vec![];
     // what kind of leftovers does the history leave behind?
